@@ -1,5 +1,6 @@
 import Bandit.Proofs.C01
 import Bandit.Proofs.Names
+import Bandit.Proofs.Erase
 import Bandit.Gen.Blacklists
 /-!
 # C01 — Blacklisted calls/imports are found under every import spelling
@@ -25,7 +26,7 @@ theorem call_reported
     (hv : visits inp.root = pre ++ v :: post)
     (hbc : blacklistCheck t = some bc) (hmem : bc ∈ checks)
     (hkind : v.node.kind = "Call".toList)
-    (hc : v.node.asCall? = some c)
+    (hc : v.node.erase.asCall? = some c)      -- `c`: the call as checks see it (positions erased)
     (hpos : v.node.pos = some p)
     (hq : callName (stateAfter {} (pre ++ [v])).aliases c = q)
     (hni : c.func.nameId? ≠ some "__import__".toList)
@@ -43,11 +44,19 @@ theorem call_reported
   refine mem_runVisit hd hmem hkm ?_
   generalize stateAfter {} (pre ++ [v]) = s at hq ⊢
   let env : Env := { v := v, st := s, ctx := ⟨v.node.line?, v.node.col?, linerange v.node v.sib⟩, lines := inp.lines }
-  have hqual : env.qual = q := by
-    simp only [Env.qual, Env.call?, env, hc, hq]
-  have hrunv : bc.run env = .ok (some { id := r.id, sev := r.level, conf := .high }) := by
+  have hfc : env.forCheck bc = { env with v := v.erase } := forCheck_erased (blacklistCheck_usesPos hbc)
+  have hkindE : (env.forCheck bc).node.kind = "Call".toList := by
+    rw [hfc]; simp [Env.node, Visit.erase, hkind]
+  have hcE : (env.forCheck bc).node.asCall? = some c := by
+    rw [hfc]; simpa [Env.node, Visit.erase] using hc
+  have hqual : (env.forCheck bc).qual = q := by
+    have hst : (env.forCheck bc).st = s := by rw [hfc]
+    have hcE' : (env.forCheck bc).v.node.asCall? = some c := hcE
+    simp only [Env.qual, Env.call?, hcE', hst]
+    exact hq
+  have hrunv : bc.run (env.forCheck bc) = .ok (some { id := r.id, sev := r.level, conf := .high }) := by
     rw [hrun]
-    exact blacklistRun_call (e := env) hkind hc hni (hqual ▸ hq1) (hqual ▸ hq2) (hqual ▸ hr)
+    exact blacklistRun_call (e := env.forCheck bc) hkindE hcE hni (hqual ▸ hq1) (hqual ▸ hq2) (hqual ▸ hr)
   have := runCheck_plain (nm := inp.nosec) hrunv hid hns rfl (l := p.line) (col := p.col)
     (by simp [env, Node.line?, hpos]) (by simp [env, Node.col?, hpos])
   show _ ∈ runCheck inp.nosec env bc
@@ -59,13 +68,14 @@ produces nothing at that call (no finding, no withheld finding, no crash). -/
 theorem call_silent
     (nm : NosecMap) (t : BlTables) (bc : Check) (env : Env) (c : CallView)
     (hbc : blacklistCheck t = some bc)
-    (hkind : env.node.kind = "Call".toList) (hc : env.node.asCall? = some c)
+    (hkind : (env.forCheck bc).node.kind = "Call".toList) (hc : (env.forCheck bc).node.asCall? = some c)
     (hni : c.func.nameId? ≠ some "__import__".toList)
-    (hq1 : env.qual ≠ "importlib.import_module".toList) (hq2 : env.qual ≠ "importlib.__import__".toList)
-    (hr : ∀ r ∈ t.rulesFor "Call".toList, env.qual ∉ r.qualnames) :
+    (hq1 : (env.forCheck bc).qual ≠ "importlib.import_module".toList)
+    (hq2 : (env.forCheck bc).qual ≠ "importlib.__import__".toList)
+    (hr : ∀ r ∈ t.rulesFor "Call".toList, (env.forCheck bc).qual ∉ r.qualnames) :
     runCheck nm env bc = [] := by
   obtain ⟨hrun, _, _⟩ := blacklistCheck_run hbc
-  have hnone : firstCallRule (t.rulesFor "Call".toList) env.qual = none := by
+  have hnone : firstCallRule (t.rulesFor "Call".toList) (env.forCheck bc).qual = none := by
     unfold firstCallRule
     rw [List.find?_eq_none]
     intro r hrm
@@ -143,19 +153,22 @@ theorem import_reported
       | none => simp [hmm] at hm
       | some m => simp [dispatch, h1, h2, h3, hmm, hkind, env]
   refine mem_runVisit hd hmem hkm ?_
-  have hrunv : bc.run env = .ok (some { id := r.id, sev := r.level, conf := .high }) := by
-    rw [hrun]
+  have hfc : env.forCheck bc = { env with v := v.erase } := forCheck_erased (blacklistCheck_usesPos hbc)
+  have hrunv : bc.run (env.forCheck bc) = .ok (some { id := r.id, sev := r.level, conf := .high }) := by
+    rw [hrun, hfc]
     rcases hk with rfl | ⟨rfl, hm⟩
     · have h1 := not_isKind_of_kind (k := "Import") (k' := "Call") hkind (by decide)
       have h2 := isKind_of_kind hkind
       have h3 := not_isKind_of_kind (k := "Import") (k' := "ImportFrom") hkind (by decide)
-      simp only [blacklistRun, Env.node, env, h1, h2, h3, Bool.false_eq_true, if_false, Bool.true_or, if_true, hkind]
+      simp only [blacklistRun, Env.node, Visit.erase, Node.erase_isKind, Node.erase_kind, importFullNames_erase,
+        h1, h2, h3, Bool.false_eq_true, if_false, Bool.true_or, if_true, hkind]
       rw [hr]
       rfl
     · have h1 := not_isKind_of_kind (k := "ImportFrom") (k' := "Call") hkind (by decide)
       have h2 := isKind_of_kind hkind
       have h3 := not_isKind_of_kind (k := "ImportFrom") (k' := "Import") hkind (by decide)
-      simp only [blacklistRun, Env.node, env, h1, h2, h3, Bool.false_eq_true, if_false, Bool.false_or, if_true, hkind]
+      simp only [blacklistRun, Env.node, Visit.erase, Node.erase_isKind, Node.erase_kind, importFullNames_erase,
+        h1, h2, h3, Bool.false_eq_true, if_false, Bool.false_or, if_true, hkind]
       rw [hr]
       rfl
   have := runCheck_plain (nm := inp.nosec) hrunv hid hns rfl (l := p.line) (col := p.col)
